@@ -189,19 +189,19 @@ pub fn report(bytes: &[u8]) -> Result<Vec<String>, String> {
     Ok(out)
 }
 
-struct Doc {
-    bytes: Vec<u8>,
-    xml: String,
+pub struct Doc {
+    pub bytes: Vec<u8>,
+    pub xml: String,
     xs: usize,
     xe: usize,
     log: Vec<u8>,
     /// (element local name, offset) insertion points for child content
-    child_positions: Vec<(String, usize)>,
+    pub child_positions: Vec<(String, usize)>,
     /// (element local name, offset of the end of the start tag) for foreign attributes
     attr_positions: Vec<(String, usize)>,
 }
 
-fn doc(k: usize) -> Result<Doc, String> {
+pub fn doc(k: usize) -> Result<Doc, String> {
     let bytes = base(k);
     let h = e57spec::decode::read_header(&bytes)?;
     let (log, _) = page::unseal(&bytes)?;
@@ -252,7 +252,7 @@ fn doc(k: usize) -> Result<Doc, String> {
     Ok(Doc { bytes, xml, xs, xe, log, child_positions, attr_positions })
 }
 
-fn rebuild(d: &Doc, new_xml: &str) -> Vec<u8> {
+pub fn rebuild(d: &Doc, new_xml: &str) -> Vec<u8> {
     let mut nl = d.log[..d.xs].to_vec();
     nl.extend_from_slice(new_xml.as_bytes());
     // the XML is the last section of every base file
@@ -263,7 +263,7 @@ fn rebuild(d: &Doc, new_xml: &str) -> Vec<u8> {
     page::seal(&nl)
 }
 
-fn shape(name: &str, s: usize) -> String {
+pub fn shape(name: &str, s: usize) -> String {
     match s {
         0 => format!("<vx:{name} {VX}/>"),
         1 => format!("<vx:{name} {VX} type=\"Integer\">17</vx:{name}>"),
